@@ -21,7 +21,9 @@ import itertools
 import logging
 
 RULE = ("per transport (mrp, companion, http, rtsp): every interleaving of 2 requests with optional response / "
-        "timeout per request and an optional unsolicited message; for 3 (thorough: also 4) requests every "
+        "timeout per request, the second request optionally re-sending the object of the first (MRP/Companion), and an optional "
+        "device-originated message in every (kind, identifier) variant: response/event/other x none/unknown/identifier of "
+        "request 0/1 (collisions with outstanding, completed and abandoned requests); for 3 (thorough: also 4) requests every "
         "permutation of the responses x an unsolicited message at every position x a timeout of every request at "
         "every position, in two send layouts (all first / staggered); plus 1000 (thorough: 8000) random scripts per transport with up to 5 requests "
         "(duplicates, unknown and not-yet-allocated identifiers, Companion XID burns) from ctx.rng. "
@@ -32,8 +34,10 @@ ASSUMPTIONS = [
     "expiry never race inside one loop iteration)",
     "MRP `type_N` pseudo identifiers and Companion auth frames (no identifier on the wire) are used one at a time "
     "by protocol design; they are not generated",
-    "uuid4 identifiers are pairwise distinct (abstracted as a fresh counter in the model; checked on the wire "
-    "for every generated script)",
+    "uuid4 identifiers are pairwise distinct (abstracted as a fresh counter per send in the model; two waiting "
+    "requests sharing a wire identifier are reported by the oracle)",
+    "MRP fixes no response type: a ProtocolMessage of any type carrying the identifier of a waiting request is its "
+    "answer; Companion: only a response frame (`_t`=3) can answer, an event or device request never does",
     "plain HTTP: the device answers the requests it received in order, each once; RTSP: only 2xx responses",
     "stop()/close() racing with waiters is outside the quantifier",
     "Companion responses that answer no outstanding request have no subscribers (only events can be listened "
